@@ -74,9 +74,9 @@ func ccHandshake(cache *security.SessionCache, t triple, validCmds []int, breakI
 }
 
 func runClientCache(c *Ctx) error {
-	c.Res.Rule = "histories (2-8 steps) of real client handshakes over (tag in {none,T1,T2}) x (server address in {srvA, srvB, and two sinful addresses that differ only in their ?sock= decoration}) x (command in {60007,60008,60009}) against a real server whose post-auth ValidCommands vary, interleaved with server restart (session forgotten -> SID_NOT_FOUND), broken connections (peer closes) and stalled ones (peer goes silent, the client's deadline fires), client-side expiry (virtual time), explicit invalidation and InvalidateExpired; after every step all 36 LookupByCommand routes are compared with the model and with a reference map (tag,addr,cmd) -> session kept by the spec rules; distinct by history; non-trivial = the history touches >=2 distinct triples"
-	tags := []string{"", "T1", "T2"}
-	addrs := []string{"srvA", "srvB", "<127.0.0.1:9618?sock=schedd_1>", "<127.0.0.1:9618?sock=startd_2>"}
+	c.Res.Rule = "histories (2-8 steps) of real client handshakes over (tag in {none,T1,T2,srvA}) x (server address in {srvA, srvB, two sinful addresses that differ only in their ?sock= decoration, and the address srvA,srvB (contains a comma) — with tag srvA + address srvB this is the pair whose keys collided when commas were not escaped}) x (command in {60007,60008,60009}) against a real server whose post-auth ValidCommands vary, interleaved with server restart (session forgotten -> SID_NOT_FOUND), broken connections (peer closes) and stalled ones (peer goes silent, the client's deadline fires), client-side expiry (virtual time), explicit invalidation and InvalidateExpired; after every step all 60 LookupByCommand routes are compared with the model and with a reference map (tag,addr,cmd) -> session kept by the spec rules; distinct by history; non-trivial = the history touches >=2 distinct triples"
+	tags := []string{"", "T1", "T2", "srvA"}
+	addrs := []string{"srvA", "srvB", "<127.0.0.1:9618?sock=schedd_1>", "<127.0.0.1:9618?sock=startd_2>", "srvA,srvB"}
 	cmds := []string{"60007", "60008", "60009"}
 	var all []triple
 	for _, tg := range tags {
